@@ -418,6 +418,33 @@ func exec1(t []string) string {
 		return clientAttempt(&cliNTP, "ntp", t[1], unhex(t[2]))
 	case "cli.csptp": // "cli.csptp <319|320> <hex>": datagram sent to the CSPTP client from that port after its request
 		return clientAttempt(&cliCSPTP, "csptp", t[1], unhex(t[2]))
+	case "cli.csptpx": // "cli.csptpx <k=v>…": a COMPLETE exchange with the scripted responder (csptpx.go); liveness only
+		p, ok := parseX(t[1:])
+		if !ok {
+			return "bad-op"
+		}
+		_, st := csptpExchange(p)
+		switch {
+		case strings.HasPrefix(st, "skip"), st == "dead", st == "stalled":
+			return st
+		}
+		return "ok alive" // complete or not: the client reported an outcome and is still there
+	case "csptpcli.run": // property C18: deviations of the returned values from the exact formulas
+		p, ok := parseX(t[1:])
+		if !ok {
+			return "bad-op"
+		}
+		for try := 0; ; try++ {
+			r, st := csptpExchange(p)
+			if st == "" {
+				return runAnswer(p, r)
+			}
+			if strings.HasPrefix(st, "skip") || try == 2 {
+				return "skip " + strings.TrimPrefix(st, "skip ")
+			}
+		}
+	case "csptpcli.eval": // a recorded live exchange (kernel timestamps): not re-executable
+		return "live-only"
 	}
 	return "bad-op"
 }
@@ -584,6 +611,10 @@ func hexs(b []byte) string { return lib.Hex(b) }
 
 func gen(c *lib.Ctx) {
 	r := c.Rand
+	if os.Getenv("C08NET_PART") == "c18" {
+		genC18(c)
+		return
+	}
 	if !ensurePeers("ntp") {
 		c.NotExecuted("socket-level run: cannot bind loopback UDP")
 		return
@@ -596,6 +627,7 @@ func gen(c *lib.Ctx) {
 		srv.kill()
 		cliNTP.kill()
 		cliCSPTP.kill()
+		cliCSPTPX.kill()
 	}()
 	_ = r
 	skipped := map[string]bool{}
@@ -827,6 +859,13 @@ func gen(c *lib.Ctx) {
 				do("cli-csptp-rand", "cli.csptp "+port+" "+hexs(b))
 			}
 		}
+		// complete, well-formed exchanges (the evaluation after the loop runs at all): correction
+		// fields, UTC offset valid / not valid, non-normalised nanoseconds, either order
+		c.Comment("CSPTP client: complete exchanges")
+		rx := c.Rand.Fork("csptpx")
+		for i := 0; i < c.Scale(12, 200); i++ {
+			do("cli-csptp-complete", "cli.csptpx "+genParams(rx).String())
+		}
 	}
 }
 
@@ -853,6 +892,8 @@ func main() {
 	switch role := os.Getenv("C08NET_ROLE"); {
 	case role == "servers":
 		childServers()
+	case role == "clientx-csptp":
+		childClientCSPTPX()
 	case strings.HasPrefix(role, "client-"):
 		port, _ := strconv.Atoi(os.Getenv("C08NET_ARGS"))
 		childClients(strings.TrimPrefix(role, "client-"), port)
